@@ -4,7 +4,11 @@
 #ifndef TETL_SIM_CONFIG_HPP
 #define TETL_SIM_CONFIG_HPP
 
-#define TETL_ENABLE_ASSERTIONS
+// The suite's configuration switches TETL_ASSERT on explicitly. The `ndebug` flavours leave it to NDEBUG (a release build
+// with contract checks enabled): every TETL_PRECONDITION must still fire there.
+#if !defined(SIM_NO_ASSERTIONS)
+    #define TETL_ENABLE_ASSERTIONS
+#endif
 #define TETL_ENABLE_CUSTOM_ASSERT_HANDLER
 #define TETL_ENABLE_CUSTOM_EXCEPTION_HANDLER
 
